@@ -21,6 +21,7 @@
 #include <cmath>
 #include <cstring>
 #include <functional>
+#include <limits>
 #include <sstream>
 #include <string>
 #include <type_traits>
@@ -120,6 +121,7 @@ struct VX<vec_t<T, 2>>
   static V comps(const Json &a) { return V(sIn<T>(a[(size_t)0]), sIn<T>(a[(size_t)1])); }
   static T get(const V &v, int i) { return i == 0 ? v.x : v.y; }
   static void set(V &v, int i, T s) { (i == 0 ? v.x : v.y) = s; }
+  static T &ref(V &v, int i) { return i == 0 ? v.x : v.y; }
 };
 template <typename T, bool A>
 struct VX<vec_t<T, 3, A>>
@@ -146,6 +148,7 @@ struct VX<vec_t<T, 3, A>>
   static V comps(const Json &a) { return V(sIn<T>(a[(size_t)0]), sIn<T>(a[(size_t)1]), sIn<T>(a[(size_t)2])); }
   static T get(const V &v, int i) { return i == 0 ? v.x : i == 1 ? v.y : v.z; }
   static void set(V &v, int i, T s) { (i == 0 ? v.x : i == 1 ? v.y : v.z) = s; }
+  static T &ref(V &v, int i) { return i == 0 ? v.x : i == 1 ? v.y : v.z; }
 };
 template <typename T>
 struct VX<vec_t<T, 4>>
@@ -177,6 +180,7 @@ struct VX<vec_t<T, 4>>
   }
   static T get(const V &v, int i) { return i == 0 ? v.x : i == 1 ? v.y : i == 2 ? v.z : v.w; }
   static void set(V &v, int i, T s) { (i == 0 ? v.x : i == 1 ? v.y : i == 2 ? v.z : v.w) = s; }
+  static T &ref(V &v, int i) { return i == 0 ? v.x : i == 1 ? v.y : i == 2 ? v.z : v.w; }
 };
 template <class V>
 inline Json outv(const V &v)
@@ -393,7 +397,18 @@ static void unOps(const Json &arg, Json &o)
     }
   }
 }
-// sin / cos at 0 (case "Zero")
+// degenerate operand: the zero vector.  safe_normalize exists for exactly this operand (floating-point element types)
+template <typename T, class V, bool FLT = std::is_floating_point<T>::value>
+struct SafeNorm0
+{
+  static void run(const V &a, const std::string &fam, Json &o) { put(o, "safenorm0", fam, outv(safe_normalize(a))); }
+};
+template <typename T, class V>
+struct SafeNorm0<T, V, false>
+{
+  static void run(const V &, const std::string &, Json &) {}
+};
+// sin / cos / length / safe_normalize at 0 (case "Zero")
 template <typename T, class V>
 static void zeroOps(const Json &arg, Json &o)
 {
@@ -401,6 +416,8 @@ static void zeroOps(const Json &arg, Json &o)
   const V a = VX<V>::make(arg["a"]);
   put(o, "sin0", "r" + p, outv(sin(a)));
   put(o, "cos0", "r" + p, outv(cos(a)));
+  put(o, "length0", "r" + p, sout<T>(length(a)));
+  SafeNorm0<T, V>::run(a, "r" + p, o);
 }
 
 // ---- group "bin" / "cmp" ----------------------------------------------------------------------------
@@ -411,12 +428,13 @@ static void binVV(const Json &arg, Json &o, bool arith)
   const std::string p = pad2<VA, VB>();
   const VA a = VX<VA>::make(arg["a"]);
   const VB b = VX<VB>::make(arg["b"]);
+  const bool dv = !arg["nd"].boolean();  // "nd": an operand of the divisions is zero - / % divRoundUp are not evaluated
   if (arith) {
     put(o, "add", "vv" + p, outv(a + b));
     put(o, "sub", "vv" + p, outv(a - b));
     put(o, "mul", "vv" + p, outv(a * b));
-    put(o, "div", "vv" + p, outv(a / b));
-    ModOp<T, T>::vv(a, b, "vv" + p, o);
+    if (dv) put(o, "div", "vv" + p, outv(a / b));
+    if (dv) ModOp<T, T>::vv(a, b, "vv" + p, o);
     {
       VA t = a;
       t += b;
@@ -432,12 +450,12 @@ static void binVV(const Json &arg, Json &o, bool arith)
       t *= b;
       put(o, "mul", "vv.ca" + p, outv(t));
     }
-    {
+    if (dv) {
       VA t = a;
       t /= b;
       put(o, "div", "vv.ca" + p, outv(t));
     }
-    ModOp<T, T>::cavv(a, b, "vv.ca" + p, o);
+    if (dv) ModOp<T, T>::cavv(a, b, "vv.ca" + p, o);
     put(o, "dot", "vv" + p, sout<T>(dot(a, b)));
     CrossOp<VA, VB>::run(a, b, "vv" + p, o);
   }
@@ -456,18 +474,19 @@ static void binSame(const Json &arg, Json &o, bool arith)
   put(o, "max", "vv" + p2, outv(max(a, b)));
   put(o, "less", "vv" + p2, Json(std::less<V>()(a, b)));
   if (!arith) return;
-  put(o, "dru", "vv" + p2, outv(divRoundUp(a, b)));
+  const bool dv = !arg["nd"].boolean();
+  if (dv) put(o, "dru", "vv" + p2, outv(divRoundUp(a, b)));
   const T s = sIn<T>(arg["s"]);
   put(o, "add", "vs" + p1, outv(a + s));
   put(o, "sub", "vs" + p1, outv(a - s));
   put(o, "mul", "vs" + p1, outv(a * s));
-  put(o, "div", "vs" + p1, outv(a / s));
-  ModOp<T, T>::vs(a, s, "vs" + p1, o);
+  if (dv) put(o, "div", "vs" + p1, outv(a / s));
+  if (dv) ModOp<T, T>::vs(a, s, "vs" + p1, o);
   put(o, "add", "sv" + p1, outv(s + b));
   put(o, "sub", "sv" + p1, outv(s - b));
   put(o, "mul", "sv" + p1, outv(s * b));
-  put(o, "div", "sv" + p1, outv(s / b));
-  ModOp<T, T>::sv(s, b, "sv" + p1, o);
+  if (dv) put(o, "div", "sv" + p1, outv(s / b));
+  if (dv) ModOp<T, T>::sv(s, b, "sv" + p1, o);
   {
     V t = a;
     t += s;
@@ -483,12 +502,12 @@ static void binSame(const Json &arg, Json &o, bool arith)
     t *= s;
     put(o, "mul", "vs.ca" + p1, outv(t));
   }
-  {
+  if (dv) {
     V t = a;
     t /= s;
     put(o, "div", "vs.ca" + p1, outv(t));
   }
-  ModOp<T, T>::cavs(a, s, "vs.ca" + p1, o);
+  if (dv) ModOp<T, T>::cavs(a, s, "vs.ca" + p1, o);
 }
 
 // mixed element types: vec<T> op vec<U>, vec<T> op U, U op vec<T>, vec<T> op= vec<U>, vec<T> op= U
@@ -502,7 +521,7 @@ struct CompoundMixedOK
 template <typename T, typename U, class VT_, class VU_, bool CA = CompoundMixedOK<T, U>::value>
 struct MixedCompound
 {
-  static void run(const VT_ &a, const VU_ &b, const U &su, const std::string &m, Json &o)
+  static void run(const VT_ &a, const VU_ &b, const U &su, const std::string &m, bool dv, Json &o)
   {
     {
       VT_ t = a;
@@ -519,12 +538,12 @@ struct MixedCompound
       t *= b;
       put(o, "mul", "vv.ca" + m, outv(t));
     }
-    {
+    if (dv) {
       VT_ t = a;
       t /= b;
       put(o, "div", "vv.ca" + m, outv(t));
     }
-    ModOp<T, U>::cavv(a, b, "vv.ca" + m, o);
+    if (dv) ModOp<T, U>::cavv(a, b, "vv.ca" + m, o);
     {
       VT_ t = a;
       t += su;
@@ -540,18 +559,18 @@ struct MixedCompound
       t *= su;
       put(o, "mul", "vs.ca" + m, outv(t));
     }
-    {
+    if (dv) {
       VT_ t = a;
       t /= su;
       put(o, "div", "vs.ca" + m, outv(t));
     }
-    ModOp<T, U>::cavs(a, su, "vs.ca" + m, o);
+    if (dv) ModOp<T, U>::cavs(a, su, "vs.ca" + m, o);
   }
 };
 template <typename T, typename U, class VT_, class VU_>
 struct MixedCompound<T, U, VT_, VU_, false>
 {
-  static void run(const VT_ &, const VU_ &, const U &, const std::string &, Json &) {}
+  static void run(const VT_ &, const VU_ &, const U &, const std::string &, bool, Json &) {}
 };
 
 template <typename T, typename U, int N, bool A>
@@ -564,22 +583,23 @@ static void binMixed(const Json &arg, Json &o, Json &rt)
   const VT_ bt = VX<VT_>::make(arg["b"]);
   const VU_ b = VX<VU_>::make(arg["b"]);
   const U su = sIn<U>(arg["s"]);
+  const bool dv = !arg["nd"].boolean();
   put(o, "add", "vv" + m, outv(a + b));
   put(o, "sub", "vv" + m, outv(a - b));
   put(o, "mul", "vv" + m, outv(a * b));
-  put(o, "div", "vv" + m, outv(a / b));
-  ModOp<T, U>::vv(a, b, "vv" + m, o);
+  if (dv) put(o, "div", "vv" + m, outv(a / b));
+  if (dv) ModOp<T, U>::vv(a, b, "vv" + m, o);
   put(o, "add", "vs" + m, outv(a + su));
   put(o, "sub", "vs" + m, outv(a - su));
   put(o, "mul", "vs" + m, outv(a * su));
-  put(o, "div", "vs" + m, outv(a / su));
-  ModOp<T, U>::vs(a, su, "vs" + m, o);
+  if (dv) put(o, "div", "vs" + m, outv(a / su));
+  if (dv) ModOp<T, U>::vs(a, su, "vs" + m, o);
   put(o, "add", "sv" + m, outv(su + bt));
   put(o, "sub", "sv" + m, outv(su - bt));
   put(o, "mul", "sv" + m, outv(su * bt));
-  put(o, "div", "sv" + m, outv(su / bt));
-  ModOp<T, U>::sv(su, bt, "sv" + m, o);
-  MixedCompound<T, U, VT_, VU_>::run(a, b, su, m, o);
+  if (dv) put(o, "div", "sv" + m, outv(su / bt));
+  if (dv) ModOp<T, U>::sv(su, bt, "sv" + m, o);
+  MixedCompound<T, U, VT_, VU_>::run(a, b, su, m, dv, o);
   // element type of the results of the three mixed forms (overload routing)
   typedef decltype(a + b) R1;
   typedef decltype(a + su) R2;
@@ -672,6 +692,81 @@ static void mcaShapes(const Json &arg, Json &o)
     mcaOps<T, U, vec_t<T, 3>, vec_t<U, 3>>(arg, o);
     mcaOps<T, U, vec_t<T, 3, true>, vec_t<U, 3, true>>(arg, o);
   } else mcaOps<T, U, vec_t<T, 4>, vec_t<U, 4>>(arg, o);
+}
+
+// ---- group "alias": operands that alias each other (x op= x, a scalar operand that IS a component of the left-hand vector) ------
+template <typename T, class V>
+static void aliasOps(const Json &arg, Json &o)
+{
+  const std::string p = pad1<V>();
+  const std::string p2 = pad2<V, V>();
+  const V a = VX<V>::make(arg["a"]);
+  const int k = (int)arg["k"].num();
+  // non-assigning forms with aliasing operands
+  put(o, "add", "vv.alias" + p2, outv(a + a));
+  put(o, "sub", "vv.alias" + p2, outv(a - a));
+  put(o, "mul", "vv.alias" + p2, outv(a * a));
+  put(o, "div", "vv.alias" + p2, outv(a / a));
+  put(o, "min", "vv.alias" + p2, outv(min(a, a)));
+  put(o, "max", "vv.alias" + p2, outv(max(a, a)));
+  {
+    V t = a;
+    put(o, "add", "vs.alias" + p, outv(t + VX<V>::ref(t, k)));
+    put(o, "sub", "vs.alias" + p, outv(t - VX<V>::ref(t, k)));
+    put(o, "mul", "vs.alias" + p, outv(t * VX<V>::ref(t, k)));
+    put(o, "div", "vs.alias" + p, outv(t / VX<V>::ref(t, k)));
+    put(o, "add", "sv.alias" + p, outv(VX<V>::ref(t, k) + t));
+    put(o, "mul", "sv.alias" + p, outv(VX<V>::ref(t, k) * t));
+    put(o, "sub", "sv.alias" + p, outv(VX<V>::ref(t, k) - t));
+    put(o, "div", "sv.alias" + p, outv(VX<V>::ref(t, k) / t));
+  }
+  // t op= t
+  {
+    V t = a;
+    t += t;
+    put(o, "add", "vv.ca.alias" + p2, outv(t));
+  }
+  {
+    V t = a;
+    t -= t;
+    put(o, "sub", "vv.ca.alias" + p2, outv(t));
+  }
+  {
+    V t = a;
+    t *= t;
+    put(o, "mul", "vv.ca.alias" + p2, outv(t));
+  }
+  {
+    V t = a;
+    t /= t;
+    put(o, "div", "vv.ca.alias" + p2, outv(t));
+  }
+  // t op= t.<component k>: the scalar operand is a component of the vector that is being assigned
+  {
+    V t = a;
+    t += VX<V>::ref(t, k);
+    put(o, "add", "vs.ca.alias" + p, outv(t));
+  }
+  {
+    V t = a;
+    t -= VX<V>::ref(t, k);
+    put(o, "sub", "vs.ca.alias" + p, outv(t));
+  }
+  {
+    V t = a;
+    t *= VX<V>::ref(t, k);
+    put(o, "mul", "vs.ca.alias" + p, outv(t));
+  }
+  {
+    V t = a;
+    t /= VX<V>::ref(t, k);
+    put(o, "div", "vs.ca.alias" + p, outv(t));
+  }
+  {
+    V t = a;
+    t = t;  // self-assignment
+    put(o, "pos", "r.selfassign" + p, outv(t));
+  }
 }
 
 // ---- group "tern" -------------------------------------------------------------------------------------
@@ -802,6 +897,34 @@ inline V mkG(const Json &a)
   for (int i = 0; i < (int)VX<V>::N; ++i) VX<V>::set(v, i, gIn<typename VX<V>::S>(a[(size_t)i]));
   return v;
 }
+// infinities cannot be written in JSON: "<name>_inf" holds a code per component (0 none, 1 +inf, -1 -inf; floating point only)
+template <typename T>
+inline T withInf(T x, long long code, std::true_type)
+{
+  return code > 0 ? std::numeric_limits<T>::infinity() : code < 0 ? -std::numeric_limits<T>::infinity() : x;
+}
+template <typename T>
+inline T withInf(T x, long long, std::false_type)
+{
+  return x;
+}
+template <class V>
+inline V mkGI(const Json &arg, const char *name)
+{
+  typedef typename VX<V>::S T;
+  V v = mkG<V>(arg[name]);
+  const std::string key = std::string(name) + "_inf";
+  if (arg.has(key))
+    for (int i = 0; i < (int)VX<V>::N; ++i)
+      VX<V>::set(v, i, withInf<T>(VX<V>::get(v, i), arg[key][(size_t)i].num(), std::is_floating_point<T>()));
+  return v;
+}
+template <typename T>
+inline T gInI(const Json &arg, const char *name)
+{
+  const std::string key = std::string(name) + "_inf";
+  return withInf<T>(gIn<T>(arg[name]), arg.has(key) ? arg[key].num() : 0, std::is_floating_point<T>());
+}
 template <typename R>
 inline void pushBits(Json &j, R x)
 {
@@ -820,9 +943,17 @@ inline Json bitsv(const VR &v)
   for (int i = 0; i < (int)VX<VR>::N; ++i) pushBits<typename VX<VR>::S>(j, VX<VR>::get(v, i));
   return j;
 }
-inline void putLift(Json &o, const char *op, const std::string &fam, const Json &v, const Json &s)
+// kind of the recorded element type: "f" (float: 2 pieces per component), "d" (double: 4), "i" (an integer type); TLC accepts
+// NaN = NaN for the floating kinds (payload and sign of a NaN are not part of the law)
+template <typename R>
+inline const char *kindOf()
+{
+  return std::is_floating_point<R>::value ? (sizeof(R) == 4 ? "f" : "d") : "i";
+}
+inline void putLiftK(Json &o, const char *op, const std::string &fam, const Json &v, const Json &s, const char *k)
 {
   Json e = Json::object();
+  e.set("k", Json(k));
   e.set("v", v);
   e.set("s", s);
   put(o, op, fam, e);
@@ -882,7 +1013,7 @@ struct LiftBin
     const VR r = OP::ap(a, b);
     Json s = Json::array();
     for (int i = 0; i < N; ++i) pushBits<R>(s, (R)OP::ap(VX<VA>::get(a, i), VX<VB>::get(b, i)));
-    putLift(o, OP::nm(), fam, bitsv(r), s);
+    putLiftK(o, OP::nm(), fam, bitsv(r), s, kindOf<R>());
   }
   // vec op scalar (scalar of type U)
   static void vs(const VA &a, const U &c, const std::string &fam, Json &o)
@@ -892,7 +1023,7 @@ struct LiftBin
     const VR r = OP::ap(a, c);
     Json s = Json::array();
     for (int i = 0; i < N; ++i) pushBits<R>(s, (R)OP::ap(VX<VA>::get(a, i), c));
-    putLift(o, OP::nm(), fam, bitsv(r), s);
+    putLiftK(o, OP::nm(), fam, bitsv(r), s, kindOf<R>());
   }
   // scalar (type U) op vec<T>
   static void sv(const U &c, const VA &b, const std::string &fam, Json &o)
@@ -902,7 +1033,7 @@ struct LiftBin
     const VR r = OP::ap(c, b);
     Json s = Json::array();
     for (int i = 0; i < N; ++i) pushBits<R>(s, (R)OP::ap(c, VX<VA>::get(b, i)));
-    putLift(o, OP::nm(), fam, bitsv(r), s);
+    putLiftK(o, OP::nm(), fam, bitsv(r), s, kindOf<R>());
   }
   // vec op= vec, vec op= scalar: the scalar compound assignment on every component
   static void cavv(const VA &a, const VB &b, const std::string &fam, Json &o)
@@ -915,7 +1046,7 @@ struct LiftBin
       OP::as(x, VX<VB>::get(b, i));
       pushBits<T>(s, x);
     }
-    putLift(o, OP::nm(), fam, bitsv(t), s);
+    putLiftK(o, OP::nm(), fam, bitsv(t), s, kindOf<T>());
   }
   static void cavs(const VA &a, const U &c, const std::string &fam, Json &o)
   {
@@ -927,7 +1058,7 @@ struct LiftBin
       OP::as(x, c);
       pushBits<T>(s, x);
     }
-    putLift(o, OP::nm(), fam, bitsv(t), s);
+    putLiftK(o, OP::nm(), fam, bitsv(t), s, kindOf<T>());
   }
 };
 template <class OP, class VA, class VB>
@@ -940,12 +1071,20 @@ struct LiftBin<OP, VA, VB, false>
   static void cavv(const VA &, const VB &, const std::string &, Json &) {}
   static void cavs(const VA &, const U &, const std::string &, Json &) {}
 };
-// which operators are recorded for an (element type, other type) pair: + - * where the common type is floating point
-// (integer + - * can overflow: undefined for int32 / int64), / always, % for two integral types
+// which operators are recorded for an (element type, other type) pair: + - * where the language defines the result for ALL operand
+// values (floating point; unsigned wrap-around; narrow integers computed in int) - signed int32 / int64 overflow is undefined and
+// is not recorded -, / always, % for two integral types
 template <typename T, typename U>
 struct LiftOn
 {
-  static const bool flt = std::is_floating_point<T>::value || std::is_floating_point<U>::value;
+  static const bool anyflt = std::is_floating_point<T>::value || std::is_floating_point<U>::value;
+  typedef decltype(T() + U()) R;
+  // integer + - : defined when the common type is unsigned (wrap-around) or both types are narrower than int (no overflow in int)
+  static const bool addsub = anyflt || std::is_unsigned<R>::value || (sizeof(T) < 4 && sizeof(U) < 4);
+  // integer * : unsigned common type, or products that fit int (8 x 8, 8 x 16 bit, int16 x int16); uint16 x uint16 overflows int
+  static const bool mul = anyflt || std::is_unsigned<R>::value || (sizeof(T) + sizeof(U) <= 3)
+      || (std::is_same<T, int16_t>::value && std::is_same<U, int16_t>::value);
+  static const bool flt = anyflt;
   static const bool mod = std::is_integral<T>::value && std::is_integral<U>::value;
   // op= of a floating-point value into an integer element: the conversion back can be out of range (undefined): not recorded
   static const bool ca = !(std::is_integral<T>::value && std::is_floating_point<U>::value);
@@ -959,12 +1098,12 @@ static void liftArith(const VA &a, const VB &b, const typename VX<VB>::S &c, con
   typedef LiftOn<T, U> On;
   // m: suffix of the vs / sv / compound-scalar families, mp2: suffix of the vec-vec families
   if (plain) {
-    LiftBin<OpAdd, VA, VB, On::flt>::vv(a, b, "vv" + mp2, o);
-    LiftBin<OpSub, VA, VB, On::flt>::vv(a, b, "vv" + mp2, o);
-    LiftBin<OpMul, VA, VB, On::flt>::vv(a, b, "vv" + mp2, o);
-    LiftBin<OpAdd, VA, VB, On::flt && On::ca>::cavv(a, b, "vv.ca" + mp2, o);
-    LiftBin<OpSub, VA, VB, On::flt && On::ca>::cavv(a, b, "vv.ca" + mp2, o);
-    LiftBin<OpMul, VA, VB, On::flt && On::ca>::cavv(a, b, "vv.ca" + mp2, o);
+    LiftBin<OpAdd, VA, VB, On::addsub>::vv(a, b, "vv" + mp2, o);
+    LiftBin<OpSub, VA, VB, On::addsub>::vv(a, b, "vv" + mp2, o);
+    LiftBin<OpMul, VA, VB, On::mul>::vv(a, b, "vv" + mp2, o);
+    LiftBin<OpAdd, VA, VB, On::addsub && On::ca>::cavv(a, b, "vv.ca" + mp2, o);
+    LiftBin<OpSub, VA, VB, On::addsub && On::ca>::cavv(a, b, "vv.ca" + mp2, o);
+    LiftBin<OpMul, VA, VB, On::mul && On::ca>::cavv(a, b, "vv.ca" + mp2, o);
   }
   if (div) {
     LiftBin<OpDiv, VA, VB, true>::vv(a, b, "vv" + mp2, o);
@@ -974,15 +1113,15 @@ static void liftArith(const VA &a, const VB &b, const typename VX<VB>::S &c, con
   }
   if (m.empty() && mp2.size() && VX<VA>::P != VX<VB>::P) return;  // scalar forms once per vector type (not for mixed padding)
   if (plain) {
-    LiftBin<OpAdd, VA, VB, On::flt>::vs(a, c, "vs" + m, o);
-    LiftBin<OpSub, VA, VB, On::flt>::vs(a, c, "vs" + m, o);
-    LiftBin<OpMul, VA, VB, On::flt>::vs(a, c, "vs" + m, o);
-    LiftBin<OpAdd, VA, VB, On::flt>::sv(c, bt, "sv" + m, o);
-    LiftBin<OpSub, VA, VB, On::flt>::sv(c, bt, "sv" + m, o);
-    LiftBin<OpMul, VA, VB, On::flt>::sv(c, bt, "sv" + m, o);
-    LiftBin<OpAdd, VA, VB, On::flt && On::ca>::cavs(a, c, "vs.ca" + m, o);
-    LiftBin<OpSub, VA, VB, On::flt && On::ca>::cavs(a, c, "vs.ca" + m, o);
-    LiftBin<OpMul, VA, VB, On::flt && On::ca>::cavs(a, c, "vs.ca" + m, o);
+    LiftBin<OpAdd, VA, VB, On::addsub>::vs(a, c, "vs" + m, o);
+    LiftBin<OpSub, VA, VB, On::addsub>::vs(a, c, "vs" + m, o);
+    LiftBin<OpMul, VA, VB, On::mul>::vs(a, c, "vs" + m, o);
+    LiftBin<OpAdd, VA, VB, On::addsub>::sv(c, bt, "sv" + m, o);
+    LiftBin<OpSub, VA, VB, On::addsub>::sv(c, bt, "sv" + m, o);
+    LiftBin<OpMul, VA, VB, On::mul>::sv(c, bt, "sv" + m, o);
+    LiftBin<OpAdd, VA, VB, On::addsub && On::ca>::cavs(a, c, "vs.ca" + m, o);
+    LiftBin<OpSub, VA, VB, On::addsub && On::ca>::cavs(a, c, "vs.ca" + m, o);
+    LiftBin<OpMul, VA, VB, On::mul && On::ca>::cavs(a, c, "vs.ca" + m, o);
   }
   if (div) {
     LiftBin<OpDiv, VA, VB, true>::vs(a, c, "vs" + m, o);
@@ -1008,10 +1147,10 @@ struct LiftFltUnary
       pushBits<T>(s3, (T)sin(x));
       pushBits<T>(s4, (T)cos(x));
     }
-    putLift(o, "rcp", "r" + p, bitsv(rcp(a)), s1);
-    putLift(o, "rcp_safe", "r" + p, bitsv(rcp_safe(a)), s2);
-    putLift(o, "sin", "r" + p, bitsv(sin(a)), s3);
-    putLift(o, "cos", "r" + p, bitsv(cos(a)), s4);
+    putLiftK(o, "rcp", "r" + p, bitsv(rcp(a)), s1, kindOf<T>());
+    putLiftK(o, "rcp_safe", "r" + p, bitsv(rcp_safe(a)), s2, kindOf<T>());
+    putLiftK(o, "sin", "r" + p, bitsv(sin(a)), s3, kindOf<T>());
+    putLiftK(o, "cos", "r" + p, bitsv(cos(a)), s4, kindOf<T>());
   }
 };
 template <typename T, class V>
@@ -1026,7 +1165,7 @@ struct LiftAbs
   {
     Json s = Json::array();
     for (int i = 0; i < (int)VX<V>::N; ++i) pushBits<T>(s, (T)abs(VX<V>::get(a, i)));
-    putLift(o, "abs", "r" + p, bitsv(abs(a)), s);
+    putLiftK(o, "abs", "r" + p, bitsv(abs(a)), s, kindOf<T>());
   }
 };
 template <typename T, class V>
@@ -1053,11 +1192,11 @@ static void liftSame(const V &a, const V &b, bool div, Json &o)
     eqs.push(Json(x == y));
     nes.push(Json(x != y));
   }
-  putLift(o, "min", "vv" + p2, bitsv(min(a, b)), smin);
-  putLift(o, "max", "vv" + p2, bitsv(max(a, b)), smax);
-  putLift(o, "neg", "r" + p, bitsv(-a), sneg);
-  putLift(o, "pos", "r" + p, bitsv(+a), spos);
-  if (div && std::is_integral<T>::value) putLift(o, "dru", "vv" + p2, bitsv(divRoundUp(a, b)), sdru);
+  putLiftK(o, "min", "vv" + p2, bitsv(min(a, b)), smin, kindOf<T>());
+  putLiftK(o, "max", "vv" + p2, bitsv(max(a, b)), smax, kindOf<T>());
+  putLiftK(o, "neg", "r" + p, bitsv(-a), sneg, kindOf<T>());
+  putLiftK(o, "pos", "r" + p, bitsv(+a), spos, kindOf<T>());
+  if (div && std::is_integral<T>::value) putLiftK(o, "dru", "vv" + p2, bitsv(divRoundUp(a, b)), sdru, kindOf<T>());
   LiftAbs<T, V>::run(a, p, o);
   LiftFltUnary<T, V>::run(a, p, o);
   Json c = Json::object();
@@ -1070,6 +1209,93 @@ static void liftSame(const V &a, const V &b, bool div, Json &o)
   c.set("nes", nes);
   put(o, "_cmp", "vv" + p2, c);
 }
+// conversions of the element type (where the language defines the result for every value: integer sources, and floating-point
+// sources converted to a floating-point type), long_product, and the vec4f colour helpers of vec.h
+template <typename T, typename U, class V, bool OK = std::is_integral<T>::value || std::is_floating_point<U>::value>
+struct LiftConv
+{
+  static void run(const V &a, Json &o)
+  {
+    typedef vec_t<U, VX<V>::N, VX<V>::P != 0> W;
+    Json s = Json::array();
+    for (int i = 0; i < (int)VX<V>::N; ++i) pushBits<U>(s, (U)VX<V>::get(a, i));
+    putLiftK(o, "conv", std::string(TN<U>::name()) + ".ctor" + pad1<V>(), bitsv(W(a)), s, kindOf<U>());
+    putLiftK(o, "conv", std::string(TN<U>::name()) + ".cast" + pad1<V>(), bitsv(static_cast<W>(a)), s, kindOf<U>());
+  }
+};
+template <typename T, typename U, class V>
+struct LiftConv<T, U, V, false>
+{
+  static void run(const V &, Json &) {}
+};
+template <typename T, class V, typename... Us>
+struct LiftConvAll;
+template <typename T, class V>
+struct LiftConvAll<T, V>
+{
+  static void run(const V &, Json &) {}
+};
+template <typename T, class V, typename U, typename... Us>
+struct LiftConvAll<T, V, U, Us...>
+{
+  static void run(const V &a, Json &o)
+  {
+    LiftConv<T, U, V>::run(a, o);
+    LiftConvAll<T, V, Us...>::run(a, o);
+  }
+};
+template <typename T, class V, bool INT = std::is_integral<T>::value>
+struct LiftLongProduct
+{
+  static void run(const V &a, Json &o)
+  {
+    // scalar definition: the product of the components, each converted to size_t first
+    size_t pr = 1;
+    for (int i = 0; i < (int)VX<V>::N; ++i) pr *= size_t(VX<V>::get(a, i));
+    Json v = Json::array(), s = Json::array();
+    pushBits<uint64_t>(v, (uint64_t)a.long_product());
+    pushBits<uint64_t>(s, (uint64_t)pr);
+    putLiftK(o, "lprod", "r" + pad1<V>(), v, s, "i");
+  }
+};
+template <typename T, class V>
+struct LiftLongProduct<T, V, false>
+{
+  static void run(const V &, Json &) {}
+};
+template <class V>
+struct LiftColour
+{
+  static void run(const V &, Json &) {}
+};
+template <>
+struct LiftColour<vec_t<float, 4>>
+{
+  static void run(const vec_t<float, 4> &c, Json &o)
+  {
+    // linear_to_srgba: the scalar curve on x, y, z, alpha = max(w, 0); cvt_uint32: byte i of the packed value = cvt_uint32(component i)
+    Json s = Json::array();
+    pushBits<float>(s, linear_to_srgb(c.x));
+    pushBits<float>(s, linear_to_srgb(c.y));
+    pushBits<float>(s, linear_to_srgb(c.z));
+    pushBits<float>(s, std::max(c.w, 0.f));
+    putLiftK(o, "linear_to_srgba", "r", bitsv(linear_to_srgba(c)), s, "f");
+    const uint32_t packed = cvt_uint32(c);
+    Json v = Json::array(), sc = Json::array();
+    for (int i = 0; i < 4; ++i) {
+      v.push(Json((long long)((packed >> (8 * i)) & 0xffu)));
+      sc.push(Json((long long)cvt_uint32(i == 0 ? c.x : i == 1 ? c.y : i == 2 ? c.z : c.w)));
+    }
+    putLiftK(o, "cvt_uint32", "r", v, sc, "i");
+  }
+};
+template <typename T, class V, typename... Us>
+static void liftExtra(const V &a, Json &o)
+{
+  LiftConvAll<T, V, float, double, Us...>::run(a, o);
+  LiftLongProduct<T, V>::run(a, o);
+  LiftColour<V>::run(a, o);
+}
 template <typename T, typename U, int N, bool A>
 static void liftMixed(const Json &arg, bool div, Json &o)
 {
@@ -1078,10 +1304,10 @@ static void liftMixed(const Json &arg, bool div, Json &o)
   const bool ufl = std::is_floating_point<U>::value, tfl = std::is_floating_point<T>::value;
   // operands of the other element type: the general ones if both types are floating point, otherwise the small integers bi / si
   const char *kb = (ufl && tfl) ? "b" : "bi", *ks = (ufl && tfl) ? "s" : "si";
-  const VT_ a = mkG<VT_>(arg["a"]);
-  const VU_ b = mkG<VU_>(arg[kb]);
-  const VT_ bt = mkG<VT_>(arg["b"]);
-  const U c = gIn<U>(arg[ks]);
+  const VT_ a = mkGI<VT_>(arg, "a");
+  const VU_ b = mkGI<VU_>(arg, kb);
+  const VT_ bt = mkGI<VT_>(arg, "b");
+  const U c = gInI<U>(arg, ks);
   const std::string m = std::string(".mx_") + TN<U>::name() + pad1<VT_>();
   liftArith<VT_, VU_>(a, b, c, bt, m, m, true, div, o);
 }
@@ -1104,10 +1330,10 @@ struct LiftMixedAll<T, N, A, U, Us...>
 template <typename T, class VA, class VB>
 static void liftPair(const Json &arg, bool div, Json &o)
 {
-  const VA a = mkG<VA>(arg["a"]);
-  const VB b = mkG<VB>(arg["b"]);
-  const VA bt = mkG<VA>(arg["b"]);
-  const T c = gIn<T>(arg["s"]);
+  const VA a = mkGI<VA>(arg, "a");
+  const VB b = mkGI<VB>(arg, "b");
+  const VA bt = mkGI<VA>(arg, "b");
+  const T c = gInI<T>(arg, "s");
   liftArith<VA, VB>(a, b, c, bt, VX<VA>::P == VX<VB>::P ? pad1<VA>() : std::string(), pad2<VA, VB>(), true, div, o);
 }
 // how many component pairs of the case have an inexact product / quotient (an observation about the INPUT, for the
@@ -1117,8 +1343,8 @@ struct Inexact
 {
   static void run(const Json &arg, bool div, Json &o)
   {
-    const V a = mkG<V>(arg["a"]), b = mkG<V>(arg["b"]);
-    const T c = gIn<T>(arg["s"]);
+    const V a = mkGI<V>(arg, "a"), b = mkGI<V>(arg, "b");
+    const T c = gInI<T>(arg, "s");
     long long im = 0, id = 0, ids = 0;
     for (int i = 0; i < (int)VX<V>::N; ++i) {
       const T x = VX<V>::get(a, i), y = VX<V>::get(b, i);
@@ -1142,7 +1368,7 @@ struct Inexact<T, V, false>
 {
   static void run(const Json &arg, bool div, Json &o)
   {
-    const V a = mkG<V>(arg["a"]), b = mkG<V>(arg["b"]);
+    const V a = mkGI<V>(arg, "a"), b = mkGI<V>(arg, "b");
     long long id = 0;
     if (div)
       for (int i = 0; i < (int)VX<V>::N; ++i)
@@ -1384,7 +1610,8 @@ struct TyOps : ITy
       const bool div = arg["div"].boolean();
       if (n == 2) {
         liftPair<T, V2, V2>(arg, div, o);
-        liftSame<T, V2>(mkG<V2>(arg["a"]), mkG<V2>(arg["b"]), div, o);
+        liftSame<T, V2>(mkGI<V2>(arg, "a"), mkGI<V2>(arg, "b"), div, o);
+        liftExtra<T, V2, Us...>(mkGI<V2>(arg, "a"), o);
         LiftMixedAll<T, 2, false, Us...>::run(arg, div, o);
         Inexact<T, V2>::run(arg, div, o);
       } else if (n == 3) {
@@ -1392,17 +1619,27 @@ struct TyOps : ITy
         liftPair<T, V3, V3a>(arg, div, o);
         liftPair<T, V3a, V3>(arg, div, o);
         liftPair<T, V3a, V3a>(arg, div, o);
-        liftSame<T, V3>(mkG<V3>(arg["a"]), mkG<V3>(arg["b"]), div, o);
-        liftSame<T, V3a>(mkG<V3a>(arg["a"]), mkG<V3a>(arg["b"]), div, o);
+        liftSame<T, V3>(mkGI<V3>(arg, "a"), mkGI<V3>(arg, "b"), div, o);
+        liftExtra<T, V3, Us...>(mkGI<V3>(arg, "a"), o);
+        liftSame<T, V3a>(mkGI<V3a>(arg, "a"), mkGI<V3a>(arg, "b"), div, o);
+        liftExtra<T, V3a, Us...>(mkGI<V3a>(arg, "a"), o);
         LiftMixedAll<T, 3, false, Us...>::run(arg, div, o);
         LiftMixedAll<T, 3, true, Us...>::run(arg, div, o);
         Inexact<T, V3>::run(arg, div, o);
       } else {
         liftPair<T, V4, V4>(arg, div, o);
-        liftSame<T, V4>(mkG<V4>(arg["a"]), mkG<V4>(arg["b"]), div, o);
+        liftSame<T, V4>(mkGI<V4>(arg, "a"), mkGI<V4>(arg, "b"), div, o);
+        liftExtra<T, V4, Us...>(mkGI<V4>(arg, "a"), o);
         LiftMixedAll<T, 4, false, Us...>::run(arg, div, o);
         Inexact<T, V4>::run(arg, div, o);
       }
+      return o;
+    }
+    if (a == "Alias") {
+      const int n = (int)arg["a"].size();
+      if (n == 2) aliasOps<T, V2>(arg, o);
+      else if (n == 3) { aliasOps<T, V3>(arg, o); aliasOps<T, V3a>(arg, o); }
+      else aliasOps<T, V4>(arg, o);
       return o;
     }
     if (a == "Mca") {
